@@ -13,13 +13,13 @@ using namespace c20;
 
 template<size_t tSize, size_t tAlign> struct alignas(tAlign) Obj { unsigned char b[tSize]; };
 
-template<typename TCfg>
+// the five value types: Obj<4,4> Obj<24,8> Obj<40,8> Obj<16,16> Obj<3,1>; every configuration uses three of them
+template<typename TCfg, typename T0, typename T1, typename T2>
 struct Direct {
 	Ctx& c; Rng& rng; std::string name;
 	struct Blk { void* p; size_t n; int type; int pool; uint8_t pat; };
 	std::vector<Blk> blocks;
-	// one allocator object per (slot); its value type is one of the 5 types below
-	typedef Obj<4, 4> T0; typedef Obj<24, 8> T1; typedef Obj<40, 8> T2; typedef Obj<16, 16> T3; typedef Obj<3, 1> T4;
+	// the allocator objects are kept with value type T0; allocations rebind them
 	std::optional<LogA<T0, TCfg>> h[4];
 	std::vector<std::string> history;
 
@@ -29,7 +29,7 @@ struct Direct {
 
 	template<typename T> static size_t tsize() { return sizeof(T); }
 	template<typename F> void withType(int type, F f) {
-		switch (type) { case 0: f((T0*)nullptr); break; case 1: f((T1*)nullptr); break; case 2: f((T2*)nullptr); break; case 3: f((T3*)nullptr); break; default: f((T4*)nullptr); break; }
+		switch (type) { case 0: f((T0*)nullptr); break; case 1: f((T1*)nullptr); break; default: f((T2*)nullptr); break; }
 	}
 	int pickHandle(bool full) { int t[4], n = 0; for (int i = 0; i < 4; ++i) if ((bool)h[i] == full) t[n++] = i; return n ? t[rng.below(n)] : -1; }
 
@@ -49,7 +49,7 @@ struct Direct {
 				if (rc == 1 && busy) continue;
 				h[hf].reset(); note(fmt("drop h%d", hf)); c.stats.count("direct.drop");
 			} else if (r < 60) {
-				int type = (int)rng.below(5);
+				int type = (int)rng.below(3);
 				size_t n = rng.chance(3, 4) ? 1 : (size_t)rng.range(2, 9);
 				withType(type, [&](auto* tp) {
 					typedef typename std::remove_pointer<decltype(tp)>::type T;
@@ -117,14 +117,16 @@ static void runDirect(Ctx& c, Rng& rng, unsigned steps) {
 	Suite tr(c, tag + ".trace", TCfg::modelLine("trace"));
 	std::string name = fmt("%s N=%zu C=%zu", tag.c_str(), N, C);
 	tracer().reset(c, &tr, name);
-	{ Direct<TCfg> d(c, rng, name); d.run(steps); c.stats.nontrivial(name); c.stats.sample(fmt("%s: %s", name.c_str(), d.tail().c_str()), 3); }
+	typedef Obj<4, 4> A0; typedef Obj<24, 8> A1; typedef Obj<40, 8> A2; typedef Obj<16, 16> A3; typedef Obj<3, 1> A4;
+	typedef typename std::conditional<N % 3 == 0, Direct<TCfg, A0, A1, A2>, typename std::conditional<N % 3 == 1, Direct<TCfg, A1, A3, A4>, Direct<TCfg, A2, A4, A0>>::type>::type D;
+	{ D d(c, rng, name); d.run(steps); c.stats.nontrivial(name); c.stats.sample(fmt("%s: %s", name.c_str(), d.tail().c_str()), 3); }
 	tracer().trace = nullptr;
 }
 
 // every number of blocks per buffer 1..32, cached free block counts 0, 1, 2, 16
-template<size_t N> static void directAll(Ctx& c, Rng& rng, unsigned steps) {
+template<size_t N, size_t tLast> static void directAll(Ctx& c, Rng& rng, unsigned steps) {
 	runDirect<N, (N % 4 == 0) ? 16 : (N % 4 == 1) ? 0 : (N % 4 == 2) ? 1 : 2>(c, rng, steps);
-	if constexpr (N < 32) directAll<N + 1>(c, rng, steps);
+	if constexpr (N < tLast) directAll<N + 1, tLast>(c, rng, steps);
 }
 
 // ------------------------------------------------------------------------------------------------ finding F13 (dedicated, tagged)
@@ -187,15 +189,25 @@ static void runF13(Ctx& c, const char* tag) {
 int main(int argc, char** argv)
 {
 	Ctx c = parseArgs(argc, argv);
+	#ifndef C20_DIRECT_SECOND_HALF
 	Rng rng(c.seed * 0x1000 + 20);
-	arena().init(c); arena().rng = &rng;
+#else
+	Rng rng(c.seed * 0x1000 + 24);
+#endif
+	arena().init(c); arena().rng = &rng; installCrashReporter();
+#ifndef C20_DIRECT_SECOND_HALF
 	runF13<Cfg<32, 16>>(c, "f13a");
 	runF13<Cfg<4, 0>>(c, "f13b");
-	const unsigned rounds = c.thorough ? 6 : 2;
+#endif
+	const unsigned rounds = c.thorough ? 10 : 3;
 	for (unsigned round = 0; round < rounds; ++round) {
 		// suites of later rounds overwrite nothing: the round is part of the suite name
 		g_round = round;
-		directAll<1>(c, rng, c.thorough ? 900 : 350);
+#ifndef C20_DIRECT_SECOND_HALF
+		directAll<1, 16>(c, rng, c.thorough ? 900 : 350);
+#else
+		directAll<17, 32>(c, rng, c.thorough ? 900 : 350);
+#endif
 	}
 	dumpTracerStats(c);
 	return c.finish();
